@@ -11,9 +11,9 @@ cd $W || exit 3
 git checkout -q -- . && git clean -fdq -e target
 mkdir -p crates/$CRATE/tests
 cp "$S/demo.rs" crates/$CRATE/tests/$NAME.rs
-if cargo test -q -p $CRATE --offline --test $NAME > $W/../a.log 2>&1; then echo "a: demo passes without the change"; else echo "a: DEMO FAILS WITHOUT THE CHANGE"; tail -15 $W/../a.log; fi
+if cargo test -q -p $CRATE ${CONFIRM_FEATURES:-} --offline --test $NAME > $W/../a.log 2>&1; then echo "a: demo passes without the change"; else echo "a: DEMO FAILS WITHOUT THE CHANGE"; tail -15 $W/../a.log; fi
 git apply "$S/patch.diff" || { echo "b: PATCH DOES NOT APPLY"; exit 1; }
-if cargo test -q -p $CRATE --offline --test $NAME > $W/../d.log 2>&1; then echo "d: DEMO PASSES WITH THE CHANGE"; else echo "d: demo fails with the change"; fi
+if cargo test -q -p $CRATE ${CONFIRM_FEATURES:-} --offline --test $NAME > $W/../d.log 2>&1; then echo "d: DEMO PASSES WITH THE CHANGE"; else echo "d: demo fails with the change"; fi
 rm crates/$CRATE/tests/$NAME.rs
 if cargo nextest run --workspace --offline --test-threads 6 --no-fail-fast > $W/../c.log 2>&1; then echo "c: existing suite passes with the change: $(grep Summary $W/../c.log)"; else echo "c: SUITE FAILS WITH THE CHANGE: $(grep Summary $W/../c.log)"; grep "^\s*FAIL" $W/../c.log | sort -u | head; fi
 git checkout -q -- . && git clean -fdq -e target
